@@ -200,7 +200,8 @@ def leanchecker(modules: Sequence[str]) -> Tuple[bool, str]:
 class Lean:
     """Batch client of the line-protocol driver: one JSON object per line in, one per line out."""
 
-    def __init__(self) -> None:
+    def __init__(self, prop: str = "") -> None:
+        self.prop = prop
         self.calls = 0
         self.lines = 0
 
@@ -209,7 +210,7 @@ class Lean:
             return []
         payload = "".join(cjson(r) + "\n" for r in reqs)
         p = subprocess.run(
-            ["lake", "env", "lean", "--run", "Driver.lean"], cwd=str(LEAN), input=payload, stdout=subprocess.PIPE, stderr=subprocess.PIPE, text=True, timeout=timeout
+            ["lake", "env", "lean", "--run", f"drivers/{self.prop}.lean"], cwd=str(LEAN), input=payload, stdout=subprocess.PIPE, stderr=subprocess.PIPE, text=True, timeout=timeout
         )
         self.calls += 1
         self.lines += len(reqs)
@@ -234,11 +235,15 @@ class DriverError(Exception):
 
 
 def load_findings(prop: str) -> List[Dict[str, Any]]:
+    out: List[Dict[str, Any]] = []
     f = VERIF / "known_findings.json"
-    if not f.exists():
-        return []
-    data = json.loads(f.read_text())
-    return [e for e in data.get("findings", []) if e.get("property") == prop]
+    if f.exists():
+        out += [e for e in json.loads(f.read_text()).get("findings", []) if e.get("property") == prop]
+    d = VERIF / "findings.d"
+    if d.is_dir():
+        for g in sorted(d.glob("*.json")):
+            out += [e for e in json.loads(g.read_text()).get("findings", []) if e.get("property") == prop]
+    return out
 
 
 # --------------------------------------------------------------------------------------
@@ -251,7 +256,7 @@ class Ctx:
         self.tier = tier
         self.seed = seed
         self.rng = random.Random(f"{prop}:{seed}")
-        self.lean = Lean()
+        self.lean = Lean(prop)
         self.t0 = time.time()
         self.evaluations = 0
         self._nontrivial: set = set()
@@ -380,7 +385,7 @@ def run_check(prop: str, tier: str, replay: Optional[str]) -> int:
         ctx.note("extract.py failed: " + str(gen.get("log"))[-800:])
 
     # 2. build: models+driver first (needed by the correspondence), then this property's theorems
-    core = lake_build(["MlodaVerif.Drv.All"])
+    core = lake_build([f"MlodaVerif.Drv.{prop}"])
     if not core.ok:
         # the model itself does not build (generated tables changed shape?) - cannot run the correspondence
         ctx.note("model/driver build failed")
